@@ -167,8 +167,22 @@ def reaction_sites(ctx, m, r_loss="R2", r_gain="R3"):
 def _r4(ctx, m):
     fl = m.flow
     env = fl.env
-    # y
-    yv = env.get("y")
+    # the locals are found by ROLE, not by name: fex = 4th field of the returned ODEContent, lhs = first list zipped into it,
+    # y = the local list whose entries are 'y[IDX_<alias>]'
+    fex_v = lhs_v = None
+    for f in fl.facts:
+        if f.kind == "return" and f.value and f.value[0] == "meth" and f.value[2] == "ODEContent":
+            v = f.value
+            fex_v = simp(v[3][3]) if len(v[3]) >= 4 else next((simp(x) for k, x in v[4] if k == "fex"), None)
+    if fex_v and fex_v[0] == "comp" and len(fex_v[3]) == 1:
+        b0 = match(("call", ("global", "zip"), (V("a"), V("b")), ()), fex_v[3][0][1])
+        if b0:
+            lhs_v = b0["a"]
+    yv = None
+    for nm, val in env.items():
+        pm0 = prefix_map(simp(val)) if val else None
+        if pm0 and pm0[1] == Y(pm0[0]):
+            yv = val
     pm = prefix_map(simp(yv)) if yv else None
     if not pm:
         ctx.unrec("R4", "y", (FILE, m.func.lineno), "abundance symbol list `y` not reconstructible")
@@ -177,7 +191,7 @@ def _r4(ctx, m):
         ctx.check(base == m.SPEC and not ifs and body == Y(bv), "R4", "y-binding", (FILE, m.func.lineno),
                   "y[i] = 'y[IDX_<alias of species[i]>]' over the unfiltered species list",
                   expected="[f'y[IDX_{x.alias}]' for x in netinfo.species]", found=show(simp(yv))[:160])
-    lv = env.get("lhs")
+    lv = lhs_v
     pm = prefix_map(simp(lv)) if lv else None
     if not pm:
         ctx.unrec("R4", "lhs", (FILE, m.func.lineno), "`lhs` not reconstructible")
@@ -196,8 +210,7 @@ def _r4(ctx, m):
         tail_ok = yv_s[0] == "phi" and m.is_has_thermal(yv_s[1]) and yv_s[2][0] == "appended" and yv_s[2][2] == ("const", "y[IDX_TGAS]")
         ctx.check(tail_ok, "R4", "y-thermal", (FILE, m.func.lineno),
                   "y gets 'y[IDX_TGAS]' appended exactly when has_thermal", found=show(yv_s)[:160])
-    fv = env.get("fex")
-    fv = simp(fv) if fv else None
+    fv = fex_v
     ok = False
     if fv and fv[0] == "comp" and len(fv[3]) == 1:
         tg, it, ifs = fv[3][0]
